@@ -99,6 +99,33 @@ class Closure:
         self.fn, self.owner = fn, owner
 
 
+class Partial:
+    """functools.partial over an interpreted callable."""
+    def __init__(self, callee, args, kwargs):
+        self.callee, self.args, self.kwargs = callee, tuple(args), dict(kwargs)
+
+
+def _external_table():
+    import functools
+    import itertools
+    import operator
+    return {
+        'itertools.chain': itertools.chain, 'itertools.chain.from_iterable': itertools.chain.from_iterable,
+        'itertools.islice': itertools.islice, 'itertools.product': itertools.product, 'itertools.repeat': itertools.repeat,
+        'itertools.takewhile': None, 'itertools.dropwhile': None, 'itertools.count': itertools.count,
+        'itertools.zip_longest': itertools.zip_longest, 'itertools.accumulate': None,
+        'operator.itemgetter': operator.itemgetter, 'operator.eq': operator.eq, 'operator.ne': operator.ne, 'operator.lt': operator.lt,
+        'operator.le': operator.le, 'operator.gt': operator.gt, 'operator.ge': operator.ge, 'operator.not_': operator.not_,
+        'operator.is_': operator.is_, 'operator.is_not': operator.is_not, 'operator.add': operator.add, 'operator.or_': operator.or_,
+        'operator.and_': operator.and_, 'operator.contains': operator.contains,
+        'functools.reduce': functools.reduce,
+    }
+
+
+EXTERNAL = _external_table()
+HIGHER_ORDER = {'itertools.takewhile', 'itertools.dropwhile', 'itertools.accumulate', 'functools.reduce'}
+
+
 class Raised(Exception):
     """The interpreted code raised an exception."""
     def __init__(self, exc_name, args=()):
@@ -129,6 +156,9 @@ class Interp(MiniEval):
 
     # ---- names / attributes --------------------------------------------------------------------------
     def lookup_module_name(self, mod, name):
+        mg = self.shared.get('module_globals')
+        if mg and (mod.name, name) in mg:
+            return mg[(mod.name, name)]
         if name in mod.functions and '.' not in name:
             return PkgFunc(mod, mod.functions[name])
         if name in mod.classes and '.' not in name:
@@ -158,8 +188,12 @@ class Interp(MiniEval):
                                        is_html=False, __iter__=[], __len__=0)
             return self.shared[key]
         if node is not None:
-            sub = Interp(self.ctx, mod.name, None, {}, self.stubs, self.depth + 1, self.shared)
-            return sub.ev(node)
+            # a module-level value is computed once (identity matters: sentinels, tables of closures)
+            ck = ('modvalue', mod.name, name)
+            if ck not in self.shared:
+                sub = Interp(self.ctx, mod.name, None, {}, self.stubs, self.depth + 1, self.shared)
+                self.shared[ck] = sub.ev(node)
+            return self.shared[ck]
         raise KeyError(name)
 
     def ev(self, e):
@@ -177,8 +211,17 @@ class Interp(MiniEval):
                 pass
             if e.id in miniev.SAFE_BUILTINS:
                 return miniev.SAFE_BUILTINS[e.id]
-            if e.id in BUILTIN_EXC or e.id in ('str', 'bytes', 'int', 'bool', 'list', 'tuple', 'dict', 'float', 'set'):
+            if e.id in BUILTIN_EXC or e.id in ('str', 'bytes', 'int', 'bool', 'list', 'tuple', 'dict', 'float', 'set', 'object',
+                                                'frozenset', 'type'):
                 return getattr(__import__('builtins'), e.id)
+            if e.id in ('getattr', 'hasattr', 'isinstance', 'callable', 'print', 'setattr', 'any', 'all'):
+                # a builtin used as a value (map(getattr, ...), partial(getattr, x)): wrap the evaluator's own version
+                name = e.id
+
+                def as_value(*a, _n=name, **k):
+                    call = ast.Call(func=ast.Name(id=_n, ctx=ast.Load()), args=[ast.Constant(value=None)] * len(a), keywords=[])
+                    return self._builtin(_n, list(a), dict(k))
+                return as_value
             raise Unsupported(f'unbound name {e.id}')
         if isinstance(e, ast.Attribute):
             text = ast.unparse(e)
@@ -212,6 +255,45 @@ class Interp(MiniEval):
             return ''.join(out)
         if isinstance(e, ast.Lambda):
             return Closure(e, self)
+        if isinstance(e, ast.GeneratorExp):
+            return iter(self.comp(e))           # evaluated eagerly, consumed lazily (next(), any(), join() ...)
+        if isinstance(e, ast.NamedExpr):
+            v = self.ev(e.value)
+            self.assign(e.target, v)
+            return v
+        if isinstance(e, (ast.Tuple, ast.List)) and any(isinstance(x, ast.Starred) for x in e.elts):
+            out = []
+            for x in e.elts:
+                if isinstance(x, ast.Starred):
+                    out.extend(list(self.ev(x.value)))
+                else:
+                    out.append(self.ev(x))
+            return tuple(out) if isinstance(e, ast.Tuple) else out
+        if isinstance(e, ast.Dict) and any(k is None for k in e.keys):
+            out = {}
+            for k, v in zip(e.keys, e.values):
+                if k is None:
+                    out.update(self.ev(v))
+                else:
+                    out[self.ev(k)] = self.ev(v)
+            return out
+        if isinstance(e, ast.Subscript) and isinstance(e.slice, ast.Slice) and isinstance(e.ctx, ast.Load):
+            base = self.ev(e.value)
+            if isinstance(base, (Obj, Sym)):
+                raise Unsupported('slice of an abstract object')
+            lo = self.ev(e.slice.lower) if e.slice.lower is not None else None
+            hi = self.ev(e.slice.upper) if e.slice.upper is not None else None
+            st = self.ev(e.slice.step) if e.slice.step is not None else None
+            return base[lo:hi:st]
+        if isinstance(e, ast.BinOp) and isinstance(e.op, (ast.Div, ast.Pow, ast.LShift, ast.RShift, ast.BitXor)):
+            a, b = self.ev(e.left), self.ev(e.right)
+            if isinstance(a, (Obj, Sym)) or isinstance(b, (Obj, Sym)):
+                raise Unsupported('arithmetic on an abstract value')
+            try:
+                return {ast.Div: lambda: a / b, ast.Pow: lambda: a ** b, ast.LShift: lambda: a << b, ast.RShift: lambda: a >> b,
+                        ast.BitXor: lambda: a ^ b}[type(e.op)]()
+            except ZeroDivisionError:
+                raise Raised('ZeroDivisionError')
         if isinstance(e, ast.Starred):
             raise Unsupported('starred expression')
         if isinstance(e, ast.Subscript) and isinstance(e.ctx, ast.Load):
@@ -305,6 +387,20 @@ class Interp(MiniEval):
             raise Unsupported(f'{base.qual}.{attr}')
         if isinstance(base, Sym):
             return Sym(f'{base.name}.{attr}')
+        if hasattr(type(base), '_pkg_qual'):
+            # an instance of a NamedTuple class of the package: fields, tuple API, methods of the class
+            if attr in getattr(base, '_fields', ()) or attr in ('_fields', '_asdict', '_replace', 'count', 'index'):
+                return getattr(base, attr)
+            mq = self.src.find_method(type(base)._pkg_qual, attr)
+            if mq:
+                m, fn = self.src.func(mq)
+                return PkgFunc(m, fn, mq.split('.')[1], bound=base)
+            raise Raised('AttributeError')
+        if isinstance(base, type) and base in (dict, str, list, tuple, int, set, frozenset, bytes, float) and not attr.startswith('_'):
+            return getattr(base, attr)          # dict.fromkeys, str.join, int.from_bytes ...
+        if isinstance(base, (str, bytes, dict, list, tuple, set, frozenset, int, float)) and not attr.startswith('__') \
+                and hasattr(base, attr) and not getattr(type(base), '_is_abstract_node', False):
+            return getattr(base, attr)
         if type(base).__name__ == 'Match' and type(base).__module__.endswith('rematch') and attr in (
                 'group', 'groups', 'groupdict', 'start', 'end', 'span', 'string'):
             return getattr(base, attr)
@@ -362,6 +458,44 @@ class Interp(MiniEval):
         if text in ('any', 'all') and len(args) == 1:
             vals = [self.truth(x) for x in args[0]]
             return any(vals) if text == 'any' else all(vals)
+        if text in ('functools.partial', 'partial') and args:
+            return Partial(args[0], args[1:], kwargs)
+        if text == 'hasattr' and len(args) == 2:
+            if isinstance(args[0], Obj):
+                if args[0].has(args[1]):
+                    return True
+                cq = object.__getattribute__(args[0], '_cls')
+                return bool(cq and self.src.find_method(cq, args[1]))
+            if not isinstance(args[0], Sym):
+                return hasattr(args[0], args[1]) and (not getattr(type(args[0]), '_is_abstract_node', False) or args[1] in (
+                    'parent', 'next_sibling', 'previous_sibling', 'next_element', 'previous_element', 'name', 'strip'))
+        if text == 'setattr' and len(args) == 3 and isinstance(args[0], Obj):
+            args[0].set(args[1], args[2])
+            return None
+        if text == 'getattr' and len(args) >= 2 and isinstance(args[0], Obj) and not args[0].has(args[1]):
+            try:
+                return self.getattr(args[0], args[1])
+            except (Unsupported, Raised):
+                if len(args) == 3:
+                    return args[2]
+                raise Raised('AttributeError')
+        if text == 'getattr' and len(args) >= 2 and not isinstance(args[0], (Obj, Sym, type(None), str)):
+            try:
+                return self.getattr(args[0], args[1])
+            except (Unsupported, Raised):
+                if len(args) == 3:
+                    return args[2]
+                raise Raised('AttributeError')
+        if text == 'type' and len(args) == 1 and 'type' not in self.stubs:
+            if isinstance(args[0], Obj):
+                cq = object.__getattribute__(args[0], '_cls')
+                if cq:
+                    return PkgClass(cq)
+                raise Unsupported('type() of an abstract object')
+            if not isinstance(args[0], Sym):
+                return type(args[0])
+        if text == 'callable' and len(args) == 1:
+            return isinstance(args[0], (PkgFunc, PkgClass, Closure, Partial)) or callable(args[0])
         if text == 'getattr' and len(args) >= 2 and isinstance(args[0], Obj):
             if args[0].has(args[1]):
                 return args[0].get(args[1])
@@ -370,6 +504,10 @@ class Interp(MiniEval):
             raise Raised('AttributeError')
         if text == 'getattr' and len(args) == 3 and isinstance(args[0], (str, type(None))):
             return getattr(args[0], args[1], args[2])
+        args = [self.as_callable(a) if isinstance(a, (Closure, PkgFunc, Partial)) else a for a in args] \
+            if self._real_callee(e, text) else args
+        if self._real_callee(e, text):
+            kwargs = {k: (self.as_callable(v) if isinstance(v, (Closure, PkgFunc, Partial)) else v) for k, v in kwargs.items()}
         callee = None
         if isinstance(e.func, ast.Attribute):
             if isinstance(e.func.value, ast.Call) and ast.unparse(e.func.value) == 'super()':
@@ -397,6 +535,51 @@ class Interp(MiniEval):
         else:
             callee = self.ev(e.func)
         return self.apply(callee, args, kwargs, text)
+
+    def _builtin(self, name, args, kwargs):
+        """The evaluator's version of a builtin, for use as a first-class value."""
+        if name == 'getattr':
+            if len(args) >= 2:
+                try:
+                    if isinstance(args[0], Obj) and args[0].has(args[1]):
+                        return args[0].get(args[1])
+                    return self.getattr(args[0], args[1])
+                except (Unsupported, Raised):
+                    if len(args) == 3:
+                        return args[2]
+                    raise Raised('AttributeError')
+        if name == 'hasattr' and len(args) == 2:
+            try:
+                self._builtin('getattr', args, {})
+                return True
+            except Raised:
+                return False
+        if name == 'isinstance' and len(args) == 2:
+            return self.isinstance(args[0], args[1])
+        if name == 'callable' and len(args) == 1:
+            return isinstance(args[0], (PkgFunc, PkgClass, Closure, Partial)) or callable(args[0])
+        if name == 'setattr' and len(args) == 3 and isinstance(args[0], Obj):
+            args[0].set(args[1], args[2])
+            return None
+        if name in ('any', 'all') and len(args) == 1:
+            vals = [self.truth(x) for x in args[0]]
+            return any(vals) if name == 'any' else all(vals)
+        if name == 'print':
+            return None
+        raise Unsupported(f'builtin {name} as a value')
+
+    def _real_callee(self, e, text):
+        """Will this call be performed by a real Python callable (builtin / container method / stdlib helper)?"""
+        if text in self.stubs:
+            return False
+        if isinstance(e.func, ast.Name):
+            return e.func.id in miniev.SAFE_BUILTINS and e.func.id not in self.env
+        if isinstance(e.func, ast.Attribute):
+            return e.func.attr in ('sort', 'get', 'setdefault', 'from_iterable', 'reduce', 'takewhile', 'dropwhile', 'accumulate', 'join')
+        return False
+
+    def as_callable(self, v):
+        return lambda *a, **k: self.apply(v, list(a), dict(k))
 
     def isinstance(self, v, c):
         cs = c if isinstance(c, tuple) else (c,)
@@ -436,6 +619,8 @@ class Interp(MiniEval):
                 return self.stubs[callee.qual](*args, **kwargs)
             mn_, _, cn_ = callee.qual.partition('.')
             cnode = self.src.mods[mn_].classes.get(cn_)
+            if cnode is not None and any(ast.unparse(b).split('.')[-1] == 'NamedTuple' for b in cnode.bases):
+                return self.namedtuple_instance(callee.qual, cnode, args, kwargs)
             if cnode is not None and any(ast.unparse(b).split('.')[-1] in ('Exception', 'ValueError', 'TypeError', 'KeyError')
                                          for b in cnode.bases):
                 return Obj(_name=cn_, __exc__=cn_, args=tuple(args))
@@ -459,23 +644,70 @@ class Interp(MiniEval):
                 m, fn = self.src.func(init)
                 self.run_function(m, fn, init.split('.')[1], args, kwargs, obj)
             return obj
+        if isinstance(callee, Partial):
+            kw = dict(callee.kwargs)
+            kw.update(kwargs)
+            return self.apply(callee.callee, list(callee.args) + list(args), kw, text)
+        if isinstance(callee, Sym):
+            if callee.name in EXTERNAL and EXTERNAL[callee.name] is not None:
+                real = EXTERNAL[callee.name]
+                a2 = [self.as_callable(a) if isinstance(a, (Closure, PkgFunc, Partial)) else a for a in args]
+                r = real(*a2, **kwargs)
+                return r
+            if callee.name in HIGHER_ORDER:
+                import functools
+                import itertools
+                real = {'itertools.takewhile': itertools.takewhile, 'itertools.dropwhile': itertools.dropwhile,
+                        'itertools.accumulate': itertools.accumulate, 'functools.reduce': functools.reduce}[callee.name]
+                a2 = [self.as_callable(a) if isinstance(a, (Closure, PkgFunc, Partial)) else a for a in args]
+                r = real(*a2, **kwargs)
+                return list(r) if callee.name != 'functools.reduce' else r
+            if callee.name in ('functools.partial',):
+                return Partial(args[0], args[1:], kwargs)
         if isinstance(callee, Closure):
             fn = callee.fn
-            sub = Interp(self.ctx, callee.owner.mod.name, callee.owner.cls, dict(callee.owner.env), self.stubs,
-                         self.depth + 1, self.shared)
+            import collections
+            sub = Interp(self.ctx, callee.owner.mod.name, callee.owner.cls, {}, self.stubs, self.depth + 1, self.shared)
+            sub.env = collections.ChainMap({}, callee.owner.env)
+            sub.outer_env = callee.owner.env
+            sub.yielded = None
             sub.bind_params(fn.args, args, kwargs)
+            if not isinstance(fn, ast.Lambda) and any(isinstance(n, (ast.Yield, ast.YieldFrom)) for n in ast.walk(fn)):
+                sub.yielded = []
+                sub.run(fn.body)
+                return iter(list(sub.yielded))
             if isinstance(fn, ast.Lambda):
                 return sub.ev(fn.body)
             return sub.run(fn.body)
         if isinstance(callee, type) and callee.__name__ in BUILTIN_EXC:
             return Obj(_name=callee.__name__, __exc__=callee.__name__, args=tuple(args))
-        if isinstance(callee, type) and callee in (str, int, bool, list, tuple, dict, float, set, bytes):
+        if callee is object:
+            return Obj(_name='object()')
+        if isinstance(callee, type) and callee in (str, int, bool, list, tuple, dict, float, set, bytes, frozenset):
             if any(isinstance(a, (Obj, Sym)) for a in args):
                 raise Unsupported(f'{callee.__name__}() of an abstract value')
             return callee(*args, **kwargs)
         if callable(callee) and not isinstance(callee, (Obj, Sym)):
             return callee(*args, **kwargs)
         raise Unsupported(f'call of {text or callee!r}')
+
+    def namedtuple_instance(self, qual, cnode, args, kwargs):
+        key = ('namedtuple', qual)
+        if key not in self.shared:
+            import collections
+            fields, defaults = [], []
+            mn_ = qual.split('.')[0]
+            for st in cnode.body:
+                if isinstance(st, ast.AnnAssign) and isinstance(st.target, ast.Name):
+                    fields.append(st.target.id)
+                    if st.value is not None:
+                        defaults.append(Interp(self.ctx, mn_, None, {}, self.stubs, self.depth + 1, self.shared).ev(st.value))
+            base = collections.namedtuple(cnode.name, fields, defaults=defaults or None)
+            self.shared[key] = type(cnode.name, (base,), {'_pkg_qual': qual, '__slots__': ()})
+        try:
+            return self.shared[key](*args, **kwargs)
+        except TypeError:
+            raise Raised('TypeError')
 
     def bind_params(self, a: ast.arguments, args, kwargs):
         params = [x.arg for x in a.posonlyargs + a.args]
@@ -606,7 +838,13 @@ class Interp(MiniEval):
                 raise Unsupported('augmented operator')
             self.assign(st.target, res())
             return
-        if isinstance(st, (ast.Global, ast.Nonlocal, ast.Import, ast.ImportFrom, ast.Assert)):
+        if isinstance(st, ast.Nonlocal):
+            self.nonlocals = getattr(self, 'nonlocals', set()) | set(st.names)
+            return
+        if isinstance(st, ast.Global):
+            self.globals_ = getattr(self, 'globals_', set()) | set(st.names)
+            return
+        if isinstance(st, (ast.Import, ast.ImportFrom, ast.Assert)):
             if isinstance(st, ast.Assert):
                 return
             raise Unsupported(type(st).__name__)
@@ -624,17 +862,49 @@ class Interp(MiniEval):
             raise Unsupported(f'store to attribute of {base!r}')
         if isinstance(t, ast.Subscript):
             base = self.ev(t.value)
+            if isinstance(t.slice, ast.Slice) and isinstance(base, list):
+                lo = self.ev(t.slice.lower) if t.slice.lower is not None else None
+                hi = self.ev(t.slice.upper) if t.slice.upper is not None else None
+                base[lo:hi] = list(v)
+                return
             if isinstance(base, (dict, list)):
-                base[self.ev(t.slice)] = v
+                try:
+                    base[self.ev(t.slice)] = v
+                except IndexError:
+                    raise Raised('IndexError')
+                except TypeError:
+                    raise Raised('TypeError')
                 return
             raise Unsupported('store to subscript')
         if isinstance(t, (ast.Tuple, ast.List)):
-            vals = list(v)
+            try:
+                vals = list(v)
+            except TypeError:
+                raise Raised('TypeError')
+            stars = [i for i, x in enumerate(t.elts) if isinstance(x, ast.Starred)]
+            if stars:
+                i = stars[0]
+                after = len(t.elts) - i - 1
+                if len(vals) < len(t.elts) - 1:
+                    raise Raised('ValueError')
+                for x, y in zip(t.elts[:i], vals[:i]):
+                    self.assign(x, y)
+                self.assign(t.elts[i].value, vals[i:len(vals) - after])
+                for x, y in zip(t.elts[i + 1:], vals[len(vals) - after:]):
+                    self.assign(x, y)
+                return
             if len(vals) != len(t.elts):
                 raise Raised('ValueError')
             for x, y in zip(t.elts, vals):
                 self.assign(x, y)
             return
+        if isinstance(t, ast.Name):
+            if t.id in getattr(self, 'nonlocals', ()) and getattr(self, 'outer_env', None) is not None:
+                self.outer_env[t.id] = v
+                return
+            if t.id in getattr(self, 'globals_', ()):
+                self.shared.setdefault('module_globals', {})[(self.mod.name, t.id)] = v
+                return
         return super().assign(t, v)
 
     def cmp(self, op, a, b):
